@@ -260,6 +260,21 @@ tasks:
       - cmd: 'false'
         ignore_error: true
 `}, calls: []string{"all"}, lines: 12})
+	// many concurrent calls that name tasks which do not exist (each fails: not found, with a suggestion)
+	ws = append(ws, workload{name: "missing-tasks-concurrent", parallel: true, files: map[string]string{"Taskfile.yml": hdr + `
+tasks:
+  build:linux: {cmds: ["printf 'linux\n'"]}
+  build:darwin: {cmds: ["printf 'darwin\n'"]}
+  upload-all:
+    deps:
+      - for: [linus, darwim, windws, linuxx, darvin, bsdd, plan8, solaris]
+        task: 'build:{{.ITEM}}'
+  also:
+    cmds:
+      - for: [a, b, c]
+        task: 'uplaod-{{.ITEM}}'
+        ignore_error: true
+`}, calls: []string{"upload-all", "also", "build:linux"}})
 	// wide include tree: sibling reader goroutines during Setup, then namespaced calls
 	incl := map[string]string{}
 	root := hdr + "includes:\n"
